@@ -22,6 +22,7 @@ TRUSTED_BASE = TRUSTED + [
     "the declarations the proofs assume are re-checked by `rfl` on every run (SchemaTie/Classify.lean)",
 ]
 SCHEMA_TIE = ('Classify',)
+SQL_TIE = ('classify',)
 ASSUMPTIONS = ASSUME
 RULE = ("as C01 (tables grid_time_flags and zeta_interval of type interstorm), plus every pair of boolean vectors "
         "(rise flag, rain flag) up to length 6 (quick) / 8 (thorough) through classify.get_mystery_jump_mask against "
